@@ -60,3 +60,29 @@ impl fmt::Debug for Parse {
         Ok(())
     }
 }
+
+/// Verification hook (add-only, compiled only with `--cfg capy_verif`): the raw
+/// event list the grammar produced, before `Sink::finish` builds the tree.
+#[cfg(capy_verif)]
+pub mod verif {
+    use token::Tokens;
+
+    /// (0 = StartNode, 1 = FinishNode, 2 = AddToken ; node kind name for StartNode), error count
+    pub fn events(tokens: &Tokens, input: &str, repl: bool) -> (Vec<(u8, String)>, usize) {
+        let g: fn(&mut crate::parser::Parser<'_>) = if repl {
+            crate::grammar::repl_line
+        } else {
+            crate::grammar::source_file
+        };
+        let (events, errors) = crate::parser::Parser::new(tokens, input).parse(g);
+        let evs = events
+            .iter()
+            .map(|e| match e {
+                crate::event::Event::StartNode { kind } => (0u8, format!("{:?}", kind)),
+                crate::event::Event::FinishNode => (1u8, String::new()),
+                crate::event::Event::AddToken => (2u8, String::new()),
+            })
+            .collect();
+        (evs, errors.len())
+    }
+}
